@@ -199,7 +199,7 @@ def run(task):
             res.append({"id": case["id"], "fam": fam, "term": term, "skip": "atoms: %s" % ex})
             continue
         for k, atom in enumerate(atoms):
-            rec = {"id": case["id"] * 10 + k, "fam": fam, "term": atom}
+            rec = {"id": case["id"] * 10 + k, "fam": fam, "term": atom, "nomodel": fam == "bignum"}
             try:
                 ground = parse(smt.to_smt2(atom))
                 if case["id"] % 2 == 0:       # every other term: negative literals as numerals
